@@ -159,7 +159,7 @@ func oracleElect(c *vh.Ctx, cs Case, node, twin *kernel.Node, op int, now uint64
 			c.Fail("elected-removes-itself", fmt.Sprintf("at %d the elected node %s is the removal candidate", now, r.id), one)
 		}
 		if err0 == nil {
-			h := (now - cs.Epoch) / Hour % 24
+			h := epochHour(now, cs.Epoch)
 			if h < 13 || h > 19 {
 				c.Fail("removal-outside-window", fmt.Sprintf("removal possible at hour %d", h), one)
 			}
@@ -251,7 +251,7 @@ func runRemove(c *vh.Ctx, cs Case) {
 			o = coqId(nw, cn.IdForNetwork)
 			// oracle: removal only in hours 13..19 of the epoch day, never of the asking node,
 			// and without a named transaction the candidate is the oldest accepted node
-			h := (q.Now - cs.Epoch) / Hour % 24
+			h := epochHour(q.Now, cs.Epoch)
 			if q.Now < cs.Epoch || h < 13 || h > 19 {
 				c.Fail("removal-outside-window", fmt.Sprintf("removal possible at hour %d (now %d)", h, q.Now), one)
 			}
@@ -274,6 +274,14 @@ func runRemove(c *vh.Ctx, cs Case) {
 
 func inRange(h, a, b uint64) bool { return h >= a && h <= b }
 
+// epochHour is floor((t - epoch) / hour) mod 24 in unbounded integers (t >= epoch).
+func epochHour(t, epoch uint64) uint64 {
+	d := new(big.Int).Sub(new(big.Int).SetUint64(t), new(big.Int).SetUint64(epoch))
+	d.Div(d, new(big.Int).SetUint64(Hour))
+	d.Mod(d, big.NewInt(24))
+	return d.Uint64()
+}
+
 func runHours(c *vh.Ctx, cs Case) {
 	node := buildNode(cs.Mainnet, cs.Epoch, nil)
 	defer node.VerifC10Close()
@@ -286,7 +294,7 @@ func runHours(c *vh.Ctx, cs Case) {
 		qt = append(qt, fmt.Sprintf("(%s, %s, %s, %d)", zts(q.Now), vh.Bool(a), vh.Bool(p), m))
 		if q.Now >= cs.Epoch {
 			// documented windows (hours of the epoch day): accept/cancel/remove 13..19, mint 7..9, pledge any other
-			h := (q.Now - cs.Epoch) / Hour % 24
+			h := epochHour(q.Now, cs.Epoch)
 			one := Case{Kind: "hours", Epoch: cs.Epoch, Qs: []Q{q}}
 			if a != inRange(h, 13, 19) {
 				c.Fail("accept-hour-window", fmt.Sprintf("accept hour predicate is %v at hour %d", a, h), one)
@@ -353,7 +361,7 @@ func runTiming(c *vh.Ctx, cs Case) {
 		if ok {
 			nt = true
 			one := Case{Kind: "timing", Name: cs.Name, Epoch: cs.Epoch, Mainnet: cs.Mainnet, Recs: cs.Recs, Qs: []Q{q}}
-			h := (q.Now - cs.Epoch) / Hour % 24
+			h := epochHour(q.Now, cs.Epoch)
 			if q.Now < cs.Epoch || h < 13 || h > 19 {
 				c.Fail("accept-cancel-outside-window", fmt.Sprintf("accept/cancel valid at hour %d", h), one)
 			}
